@@ -22,13 +22,14 @@ META = {
     "drivers": ["drv_codec"],
     "theorems": [
         "Pyoda.C14.read_write_byte", "Pyoda.C14.read_write_varint", "Pyoda.C14.read_write_count",
-        "Pyoda.C14.read_write_signedCount", "Pyoda.C14.read_write_milliseconds", "Pyoda.C14.read_write_offset",
-        "Pyoda.C14.read_write_int64", "Pyoda.C14.read_write_string_inline", "Pyoda.C14.read_write_string_pooled",
-        "Pyoda.C14.read_write_transition", "Pyoda.C14.transition_subtick_truncates",
-        "Pyoda.C14.write_dom_raises_count", "Pyoda.C14.write_dom_raises_milliseconds", "Pyoda.C14.write_dom_raises_byte",
-        "Pyoda.C14.milliseconds_form", "Pyoda.C14.transition_form",
-        "Pyoda.C14.pinned_milliseconds_counterexample",
-        "Pyoda.C14.read_write_yearOffset", "Pyoda.C14.read_write_alternatingMap",
+        "Pyoda.C14.read_write_signedCount", "Pyoda.C14.signedCount_form", "Pyoda.C14.read_write_int64",
+        "Pyoda.C14.read_write_milliseconds", "Pyoda.C14.milliseconds_form", "Pyoda.C14.read_write_offset",
+        "Pyoda.C14.read_write_string_inline", "Pyoda.C14.read_write_string_pooled",
+        "Pyoda.C14.read_write_transition", "Pyoda.C14.transition_form", "Pyoda.C14.transition_subtick_truncates",
+        "Pyoda.C14.write_dom_raises_byte", "Pyoda.C14.write_dom_raises_count", "Pyoda.C14.write_dom_raises_milliseconds",
+        "Pyoda.C14.write_dom_raises_transition", "Pyoda.C14.pinned_milliseconds_counterexample",
+        "Pyoda.C14.read_write_yearOffset", "Pyoda.C14.read_write_alternatingMap", "Pyoda.C14.read_write_recurrence",
+        "Pyoda.C14.read_write_precalculatedZone",
     ],
     "trusted_base": [
         "Python str <-> UTF-8 bytes is a bijection on strings without lone surrogates (the model keeps strings as their encodings)",
@@ -36,7 +37,8 @@ META = {
         "io.BytesIO read/write semantics",
     ],
     "partial": [
-        "composite round trips (recurrence, dictionary, precalculated zone) and write_read_canonical are checked by correspondence and by the exhaustive byte-for-byte re-encoding of all rule-based zones of both real files, not proved",
+        "proved: every primitive (byte, varint, count, signed count, int64, milliseconds, offset, inline and pooled strings, transitions in all five forms), year offset, alternating map, recurrence and the whole precalculated zone (any number of periods, optional tail) with inline strings; NOT proved: dictionary, the composites with a string pool, and write_read_canonical (decode-then-encode reproduces arbitrary canonical bytes) - those are checked by correspondence and by the exhaustive byte-for-byte re-encoding of all 724 rule-based zones of both real files by the code and by the model",
+        "write_signed_count has no range check in the code, so there is no write_dom_raises for it (oracle key scount-outside-int32-accepted)",
         "the 172 799 999 millisecond values are covered by the theorem on the model; the code is exercised on every form switch and a seeded sample (quick) ",
     ],
     "rule": "ops are generated at every form switch of every primitive +-1 plus seeded random; distinct = distinct op line / oracle case; non-trivial = every op (each exercises an encoder or decoder path)",
@@ -276,6 +278,16 @@ def impl(t):
             data = unhex(t[2])
             st, r = new_reader(data, p_pool(t[1]))
             return with_rest(f_map(_map_cls()._read(r)), st, data)
+        if kind == "rec":
+            from pyoda_time.time_zones._zone_recurrence import _ZoneRecurrence
+            data = unhex(t[2])
+            st, r = new_reader(data, p_pool(t[1]))
+            return with_rest(f_rec(_ZoneRecurrence.read(r)), st, data)
+        if kind == "zonefull":
+            from pyoda_time.time_zones._precalculated_date_time_zone import _PrecalculatedDateTimeZone
+            data = unhex(t[3])
+            st, r = new_reader(data, p_pool(t[1]))
+            return with_rest(f_zone(_PrecalculatedDateTimeZone._read(r, s_of(t[2]))), st, data)
     raise ValueError("unknown op " + " ".join(t)[:80])
 
 
@@ -814,6 +826,57 @@ def gen_yo_ops(ctx, n):
     return ops
 
 
+def gen_rec_ops(ctx, n):
+    rng = ctx.rng
+    ops = []
+
+    def yo(mo, m, d, w, a, tod, ad):
+        return f"{mo}:{m}:{d}:{w}:{int(a)}:{tod}:{int(ad)}"
+    years = [I32MIN, -9998, -5, 0, 1, 2, 1900, 1999, 2000, 2037, 9998, 9999, 10000, I32MAX]
+    for fy in years:
+        for ty in years:
+            ops.append(f"enc.rec - {h_of('X')},3600,{yo(1, 3, -1, 7, 0, 3600 * 10**9, 0)},{fy},{ty}")
+    ops.append(f"enc.rec - {h_of('F')},0,{yo(0, 2, 30, 0, 0, 0, 0)},2000,2001")      # 30 February: not constructible
+    ops.append(f"enc.rec - {h_of('F')},0,{yo(0, 2, 29, 0, 0, 0, 0)},2001,2002")      # 29 February: falls back to the 28th
+    ops.append(f"enc.rec - {h_of('F')},0,{yo(0, 12, 31, 0, 0, 0, 1)},9999,9999")     # add-day at the end of time
+    ops.append(f"enc.rec - {h_of('F')},0,{yo(0, 1, 1, 7, 0, 0, 0)},-9998,2000")      # previous Sunday before the start of time
+    for _ in range(n):
+        fy = rng.choice([I32MIN, rng.randrange(-9998, 10000), rng.randrange(1, 10000), rng.randrange(1900, 2100)])
+        ty = rng.choice([I32MAX, rng.randrange(0, 10000), rng.randrange(1900, 2100)])
+        y = yo(rng.randrange(3), rng.randrange(1, 13), rng.choice([1, -1]) * rng.randrange(1, 32), rng.randrange(0, 8),
+               rng.random() < 0.5, rng.choice([rng.randrange(0, 86400) * 10**9, rng.randrange(0, 48) * 1800 * 10**9]), rng.random() < 0.2)
+        pool = rng.choice(["-", "[]", f_pool(["GMT", "BST"])])
+        ops.append(f"enc.rec {pool} {h_of(rng.choice(['GMT', 'BST', '', 'x' * 130]))},{rng.choice([0, 3600, -3600, 1800, 64800])},{y},{fy},{ty}")
+    return ops
+
+
+def gen_real_zone_ops(ctx, rel, stride):
+    """enc.zone / dec.zonefull on zones of a real file (inline strings and a growing pool)"""
+    from pyoda_time.time_zones._precalculated_date_time_zone import _PrecalculatedDateTimeZone
+    data = load_file(rel)
+    pool_payload, zfs = zone_fields(data)
+    pool = decode_pool(pool_payload)
+    ops = []
+    for i, f in enumerate(zfs):
+        if i % stride:
+            continue
+        st, r = new_reader(f, pool)
+        zid = r.read_string()
+        if r.read_byte() != 2:
+            continue
+        z = _PrecalculatedDateTimeZone._read(r, zid)
+        txt = f_zone(z)
+        ops.append(f"enc.zone - {txt}")
+        ops.append(f"enc.zone [] {txt}")
+        buf, w = new_writer(None)
+        try:
+            z._write(w)
+            ops.append(f"dec.zonefull - {h_of(zid)} {hexs(buf.getvalue())}")
+        except Exception:  # noqa: BLE001
+            pass
+    return ops
+
+
 # ---------------------------------------------------------------------------------------------
 # real files: every rule-based zone re-encoded by the real writer must reproduce its bytes
 # ---------------------------------------------------------------------------------------------
@@ -895,11 +958,14 @@ class _Case(tuple):
 
 
 def run(ctx):
-    nq = ctx.scale(6000, 400_000)
+    nq = ctx.scale(25_000, 400_000)
     ops = gen_prim_ops(ctx, nq)
     ops += gen_trans_ops(ctx, nq)
     ops += gen_str_ops(ctx, nq // 4)
     ops += gen_yo_ops(ctx, nq // 6)
+    ops += gen_rec_ops(ctx, nq // 6)
+    for rel in FILES:
+        ops += gen_real_zone_ops(ctx, rel, 1 if ctx.thorough else 12)
     run_files(ctx)
     _Cap.reset()
     ctx.correspond("codec.prim.enc", ops, impl, oracle=oracle, neighbours=neighbours)
